@@ -90,6 +90,20 @@ def stress_api(r, idx):
                                    {"selector": "google.cloud.location.Locations.ListLocations", "get": "/v1/{name=projects/*}/locations"},
                                    {"selector": "google.iam.v1.IAMPolicy.GetIamPolicy", "post": "/v1/{resource=projects/*}:getIamPolicy", "body": "*"}]}}
         feats.append("mixins")
+    api.extra_deps = []
+    if idx % 2 == 0:
+        # field types from several separately published packages (the setup.py / constraints dependency lists)
+        table = [("google.geo.type", "Viewport"), ("google.shopping.type", "Price"), ("google.cloud.kms.v1", "CryptoKey"),
+                 ("google.iam.v2", "Policy"), ("google.cloud.osconfig.v1", "Inventory"), ("google.apps.card.v1", "Card"),
+                 ("google.cloud.documentai.v1", "Document"), ("google.identity.accesscontextmanager.v1", "AccessLevel"),
+                 ("google.apps.script.type", "AddOnWidgetSet")]
+        for n, (pk, mname) in enumerate(r.sample(table, r.randint(3, 6))):
+            dep = File("/".join(pk.split(".")) + "/" + mname.lower() + ".proto", pk)
+            dm = dep.message(mname); dm.field("name", 1, "string")
+            main.dep(dep.proto.name)
+            f = req.field.add(); f.name, f.number, f.label, f.type, f.type_name = f"ext_{mname.lower()}", 120 + n, 1, 11, dm.fqn
+            api.extra_deps.append(dep)
+        feats.append("several-published-dependency-packages")
     return api, feats, retry, yaml
 
 
@@ -168,7 +182,7 @@ def run_sweep(ctx, n, seeds):
         r = env.rng("C10-api", i)
         try:
             api, feats, retry, yaml = stress_api(r, i)
-            req = api.request("transport=" + ["grpc+rest", "grpc", "rest"][i % 3] + (",metadata" if i % 2 else ""))
+            req = api.request("transport=" + ["grpc+rest", "grpc", "rest"][i % 3] + (",metadata" if i % 2 else ""), extra_files=api.extra_deps)
         except apigen.Invalid:
             ctx.features["invalid-candidate"] += 1
             continue
